@@ -105,6 +105,10 @@ package stubs
 //@   modifies fsExists[filename], fsContent[filename]
 //@   ensures result == nil ==> fsExists(filename) && fsContent(filename) == str(data)
 
+//@ extern os.WriteFile
+//@   modifies fsExists[name], fsContent[name]
+//@   ensures result == nil ==> fsExists(name) && fsContent(name) == str(data)
+
 // Temporary files: the name chosen by CreateTemp is a function of the pattern and a
 // ghost counter; it lies in the given directory and starts like the pattern.
 //@ ufun tmpBase(pattern string, n int) string
